@@ -37,13 +37,24 @@ for name in sorted(n for n in dir(bmain) if n.startswith("c_")):
         out[name] = api._store().fetch_paths(["/b/" + name])["/b/" + name]
     except BaseException as e:
         out[name] = "ERROR %s: %s" % (type(e).__name__, str(e)[:120])
-# a data function defined in a module that is not accepted
+# a data function defined in a module that is not accepted: refused every time, however it is entered
 import outside
-try:
-    outside.g()
-    out["__refusal__"] = "evaluated"
-except BaseException as e:
-    out["__refusal__"] = "%s: %s" % (type(e).__name__, str(e)[:300])
+ref = []
+for attempt, how in enumerate(["call", "call", "eval", "call", "eval_plain", "eval_plain", "keep_plain"]):
+    try:
+        if how == "call":
+            outside.g()
+        elif how == "eval":
+            dds.eval(outside.g)
+        elif how == "eval_plain":
+            dds.eval(outside.plain)
+        else:
+            dds.keep("/b/outside_plain", outside.plain)
+        ref.append("attempt %d (%s): evaluated" % (attempt + 1, how))
+    except BaseException as e:
+        ref.append("%s: %s" % (type(e).__name__, str(e)[:300]))
+out["__refusal__"] = ref
+out["__outside_calls__"] = list(outside.CALLS)
 print(json.dumps(out))
 '''
 
@@ -78,7 +89,7 @@ def materialise(d):
         body.append("def c_%d_variable_from_import():\n    return V_%d + 1\n" % (L, L))
     open(os.path.join(d, "shim.py"), "w").write("\n".join(shim) + "\n")
     open(os.path.join(d, "bmain.py"), "w").write("\n".join(main) + "\n\n" + "\n".join(body))
-    open(os.path.join(d, "outside.py"), "w").write("import dds\n\n@dds.data_function('/b/outside_g')\ndef g():\n    return 1\n")
+    open(os.path.join(d, "outside.py"), "w").write("import dds\nCALLS = []\n\n@dds.data_function('/b/outside_g')\ndef g():\n    CALLS.append('g')\n    return 1\n\ndef plain():\n    CALLS.append('plain')\n    return 2\n")
     open(os.path.join(d, "runner.py"), "w").write(RUNNER)
 
 
@@ -141,9 +152,12 @@ def main():
                 errs = {n: v for n, v in r.items() if n.startswith("c_") and str(v).startswith("ERROR")}
                 for n, v in sorted(errs.items())[:3]:
                     note("dotted_import_form_not_resolved" if n.endswith("_dotted") else None, "accepted depth %d: evaluating %s fails: %s" % (k, n, v))
-                ref = r.get("__refusal__", "")
-                if not ("DDSException" in ref and "outside" in ref):
-                    note(None, "accepted depth %d: a data function defined in the non-accepted module 'outside' is not refused with a DDS error naming the module: %s" % (k, ref[:160]))
+                for i_, ref in enumerate(r.get("__refusal__", ["missing"])):
+                    if not ("DDSException" in ref and "outside" in ref):
+                        note(None, "accepted depth %d: entering a function of the non-accepted module 'outside' (attempt %d of call, call, eval, call, eval, eval, keep) is not refused with a DDS error naming the module: %s" % (k, i_ + 1, ref[:160]))
+                        break
+                if r.get("__outside_calls__"):
+                    note(None, "accepted depth %d: functions of the non-accepted module were executed: %s" % (k, r["__outside_calls__"]))
                 continue
             b = base[k]
             # level L is inside an accepted package iff the accepted prefix q0..q(k-1) is a prefix of q0..qL
